@@ -65,6 +65,14 @@ class FakeSocket:
             self.outbox += data
         s.wake(self.peer_wait)
 
+    send_limit = 4096      # send() takes at most this many bytes per call (free space in the socket's send buffer)
+
+    def send(self, data):
+        """like socket.send: may take only a part of the data and says how much"""
+        n = min(len(data), self.send_limit)
+        self.sendall(data[:n])
+        return n
+
     def shutdown(self, how):
         if self.closed:
             raise OSError(107, 'Transport endpoint is not connected')
